@@ -1336,6 +1336,183 @@ def c02(tier, rng, rep, only=None):
         rep.violation("self-check: no spelling probed", {"kind": "coverage"}, no_input=True)
 
 
+# ------------------------------------------------------------------------------------- C15
+
+def c15(tier, rng, rep, only=None):
+    feats = ["serde", "arbitrary", "new_unchecked"]
+    if only is not None:
+        decls = only
+    else:
+        base = [d for d in guardcorpus.build_corpus(rng.fork("g"), tier) if d.family() != "str"]
+        arb = [d for d in corpus.gen_arb_ints(rng.fork("ai"), tier) + corpus.gen_arb_floats(rng.fork("af"), tier)]
+        ser = [d for d in corpus.gen_serde_decls(rng.fork("z"), tier) if d.family() != "str"]
+        decls = base + arb[::2] + ser
+        # new_unchecked and custom errors on a few of them
+        from syntax import tid
+        for i, d in enumerate(decls):
+            if i % 9 == 4 and not d.generics:
+                d.toks = [tid("new_unchecked"), ("c",)] + d.toks
+    for d in decls:
+        d.no_run = True
+    g = flows.GuardRun("nostd" if tier == "quick" else "nostd_t", decls, features=feats, nostd=True)
+    dropped = g.build()
+    g.run_model()
+    n = 0
+    by_fam = {}
+    for d in decls:
+        n += 1
+        mv = g.model_verdict.get(d.id, "")
+        by_fam[d.family()] = by_fam.get(d.family(), 0) + 1
+        if d.id in dropped and not mv.startswith("reject"):
+            msgs = dropped[d.id]
+            rep.violation("declaration %s does not compile inside a #![no_std] crate: %s" % (d.id, msgs[0][:200]),
+                          {"kind": "verdict", "decl": d.to_json(), "decl_rust": runner.nostd_module(d), "features": feats, "rustc": msgs[:3]})
+        elif d.id not in dropped and mv.startswith("reject"):
+            rep.notes.append("%s compiles although the model rejects it (%s): C08's concern" % (d.id, mv))
+    # path roots and bare names of the real expansions (std build of the same families)
+    g2decls = [d for d in guardcorpus.build_corpus(rng.fork("C01x"), tier)]
+    g2 = flows.GuardRun("guard" if tier == "quick" else "guard_t", g2decls)
+    for d in g2decls:
+        g2.add_ops(d, [("inventory", "")])
+    g2.build()
+    g2.run_model()
+    n_inv = inventory_check(g2, rep, "c15", decl_filter=lambda d: d.family() != "str")
+    rep.coverage["expansions_checked"] = n_inv
+    rep.coverage.update({"evaluations": n, "distinct_nontrivial": n - len(dropped),
+                         "rule": "integer / float / other-type declarations of the guard, Arbitrary and serde corpora (every derivable trait set incl. FromStr, Display, Default, Serialize/Deserialize, Arbitrary; const_fn, default, custom error, generics, new_unchecked) built as #![no_std] library crates against nutype with default-features = false (+serde +arbitrary +new_unchecked); rustc's verdict per declaration",
+                         "declarations_by_family": by_fam, "rejected": len(dropped), "exhaustive": False})
+    rep.samples.append({"built": n - len(dropped), "of": n})
+    if only is None and n - len(dropped) < 100:
+        rep.violation("self-check: too few declarations built", {"kind": "coverage"}, no_input=True)
+
+
+# ------------------------------------------------------------------------------------- inventory
+
+INT_TYPES_ALL = ["u8", "u16", "u32", "u64", "u128", "usize", "i8", "i16", "i32", "i64", "i128", "isize"]
+AUTO_MARKERS = {"core::marker::StructuralPartialEq", "core::clone::TrivialClone"}
+DERIVE_PATH = {"Debug": "core::fmt::Debug", "Clone": "core::clone::Clone", "Copy": "core::marker::Copy",
+               "PartialEq": "core::cmp::PartialEq", "Eq": "core::cmp::Eq", "PartialOrd": "core::cmp::PartialOrd",
+               "Ord": "core::cmp::Ord", "Hash": "core::hash::Hash"}
+CORE_PRELUDE = {"Option", "Some", "None", "Result", "Ok", "Err", "Self", "Default", "Into", "From", "Sized", "Send", "Sync", "Copy", "Clone",
+                "Drop", "Fn", "FnMut", "FnOnce", "Iterator", "IntoIterator", "AsRef", "AsMut", "PartialEq", "Eq", "PartialOrd", "Ord",
+                "ToOwned", "TryFrom", "TryInto", "Debug", "Hash", "Box", "String", "Vec", "ToString",
+                "format_args!", "panic!", "unreachable!", "write!", "stringify!", "assert!", "matches!", "concat!", "core!"}
+NOSTD_BARE_OK = CORE_PRELUDE - {"Box", "String", "Vec", "ToString", "ToOwned"}
+
+
+def inventory_check(g, rep, what, decl_filter=None):
+    """compare the real expansions with the model's inventory; `what` selects the facets a
+    property looks at: 'c05' (constructors, mutable access, privacy, visibility),
+    'c15' (path roots / bare names), 'all'"""
+    recs = flows.expand_inventory(g.ws)
+    n = 0
+    for d in g.decls:
+        if d.id not in g.live or (decl_filter and not decl_filter(d)):
+            continue
+        n += 1
+        info = runner.DeclInfo(d)
+        mine = recs.get(d.id, [])
+        cs = [c for c in g.by_decl.get(d.id, []) if c.op == "inventory"]
+        model = [x.split("|") for x in (cs[0].model or "").split(" ;; ")] if cs and cs[0].model else []
+        payload = {"kind": "inventory", "decl": d.to_json(), "decl_rust": runner.decl_module(d, None).split("pub fn run")[0]}
+        if not mine:
+            rep.violation("no expansion records for %s" % d.id, payload, no_input=True)
+            continue
+        fns = sorted("|".join(r) for r in mine if r[0] == "fn" and r[-1] == "auto=0")
+        mfns = sorted("|".join(r) + "|auto=0" for r in model if r[0] == "fn")
+        uses = sorted("|".join(r) for r in mine if r[0] == "use")
+        vis_txt = {"": "priv", "pub": "pub", "pub_crate": "pub(crate)", "pub_super": "pub(super)"}
+        muses = sorted("use|%s|%s" % (vis_txt.get(r[1], r[1]), r[2]) for r in model if r[0] == "use")
+        if what in ("c05", "all"):
+            # structural facts, stated directly on the real expansion
+            for r in mine:
+                if r[0] == "struct" and (r[2] != "vis=pub" or r[3] != "nfields=1" or r[4] != "fieldvis=priv"):
+                    rep.violation("the generated struct of %s is not `pub struct T(<private field>)`: %s" % (d.id, "|".join(r)), payload)
+                if r[0] == "mod" and r[2] != "vis=priv":
+                    rep.violation("the generated module of %s is not private: %s" % (d.id, "|".join(r)), payload)
+                if r[0] == "item":
+                    rep.violation("unexpected item in the generated module of %s: %s" % (d.id, "|".join(r)), payload)
+                if r[0] == "type" and r[-1] != "mut=0":
+                    rep.violation("associated type with a mutable reference in %s: %s" % (d.id, "|".join(r)), payload)
+                if r[0] == "fn":
+                    kv = dict(x.split("=") for x in r[4:])
+                    name = r[3]
+                    if kv["recv"] == "mut" or kv["ret_mut"] == "1" or kv["field"] == "mut":
+                        rep.violation("function %s::%s of %s gives mutable access to the inner value: %s" % (r[1], name, d.id, "|".join(r)), payload)
+                    if kv["auto"] == "0" and kv["ctor"] == "1" and not ((r[1] == "-" and name in ("try_new", "new")) or
+                                                                      (name == "new_unchecked" and kv["unsafe"] == "1" and info.new_unchecked)):
+                        rep.violation("function %s::%s of %s constructs the type directly, bypassing the guards" % (r[1], name, d.id), payload)
+                    if kv["auto"] == "0" and r[2] == "T" and kv["recv"] == "none" and kv["ret_self"] == "1" and kv["ctor"] == "0" \
+                            and not ({"try_new", "new"} & set(kv["calls"].split(","))):
+                        rep.violation("function %s::%s of %s returns the type without calling try_new / new" % (r[1], name, d.id), payload)
+                if r[0] == "impl" and r[3] == "auto=1" and r[2] == "T" and r[1] not in AUTO_MARKERS:
+                    if r[1] not in {DERIVE_PATH.get(t) for t in info.traits}:
+                        rep.violation("unexpected derived impl %s on %s" % (r[1], d.id), payload)
+            if uses != muses:
+                rep.violation("re-exports of %s differ from the declared visibility: real %s, model %s" % (d.id, uses, muses), payload)
+        if what in ("c15", "all") and d.family() != "str":
+            for r in mine:
+                if r[0] == "roots":
+                    prims = set(INT_TYPES_ALL) | {"f32", "f64", "char", "str", "bool"}
+                    bad = [x for x in r[1].split(",") if x and x not in ("core", "alloc", "serde", "arbitrary") and x not in prims]
+                    if bad:
+                        rep.violation("expansion of %s names the crate root(s) %s" % (d.id, bad), payload)
+                if r[0] == "bare":
+                    own = {d.name, d.name + "Error", d.name + "ParseError", "CErr", "T", "TT", "Inner", "__Visitor", "D", "DE", "S", "E", "H", "V"}
+                    own |= {g_[0] for g_ in d.generics}
+                    own |= {e_[0].split("::")[0].rstrip("!") for e_ in d.env} | {"RE0", "RE1", "RE2"}
+                    own |= set(re.findall(r"[A-Za-z_]\w*", d.inner))
+                    bad = [x for x in r[1].split(",") if x and x not in NOSTD_BARE_OK and x not in own]
+                    if bad:
+                        rep.violation("expansion of %s uses bare name(s) outside the core prelude: %s" % (d.id, bad), payload, no_input=True)
+        if fns != mfns:
+            only_real = [x for x in fns if x not in mfns]
+            only_model = [x for x in mfns if x not in fns]
+            rep.violation("inventory of %s differs from the model: only in the expansion %s; only in the model %s"
+                          % (d.id, only_real[:3], only_model[:3]), payload, no_input=True)
+    return n
+
+
+# ------------------------------------------------------------------------------------- C05
+
+def c05(tier, rng, rep, only=None):
+    import attacks
+    mods = attacks.gen_attack_modules(tier)
+    if only is not None:
+        return
+    ws = runner.ModuleWorkspace("attack", runner.FEATURES_ALL)
+    dropped = ws.verdicts([(m[0], m[1]) for m in mods])
+    n = 0
+    by_attack = {}
+    for mid, text, expect_rejected, desc in mods:
+        n += 1
+        rejected = mid in dropped
+        key = (desc["attack"], "rejected" if rejected else "compiles")
+        by_attack[key] = by_attack.get(key, 0) + 1
+        payload = {"kind": "attack", "module": text, "description": desc, "rustc": (dropped.get(mid) or ["(compiles)"])[:3],
+                   "reproduce": "put the module into a crate depending on nutype (all features) and run cargo check"}
+        if expect_rejected and not rejected:
+            rep.violation("bypass attempt `%s` on a %s newtype (%s) compiles" % (desc["attack"], desc["shape"], desc.get("where", desc.get("vis"))), payload)
+        elif (not expect_rejected) and rejected:
+            rep.violation("legal use `%s` on a %s newtype is refused: %s" % (desc["attack"], desc["shape"], dropped[mid][0][:160]), payload, no_input=True)
+    # structural half: the real expansions against the inventory model
+    n_inv = 0
+    for wsname, decls in (("guard", guardcorpus.build_corpus(rng.fork("C01x"), tier)),
+                          ("serde", corpus.gen_serde_decls(rng.fork("serde"), tier)),
+                          ("arb", corpus.gen_arb_ints(rng.fork("arbint"), tier) + corpus.gen_arb_floats(rng.fork("arbfloat"), tier) + corpus.gen_arb_strs(rng.fork("arbstr"), tier))):
+        g = flows.GuardRun(wsname if tier == "quick" else wsname + "_t", decls)
+        for d in decls:
+            g.add_ops(d, [("inventory", "")])
+        g.build()
+        g.run_model()
+        n_inv += inventory_check(g, rep, "c05")
+    rep.coverage["expansions_checked"] = n_inv
+    rep.coverage.update({"evaluations": n + n_inv, "distinct_nontrivial": sum(1 for m in mods if m[2]),
+                         "rule": "(structural) every emitted impl block and function of the real expansion (-Zunpretty=expanded parsed with syn) of the guard / serde / Arbitrary corpora: struct and field visibility, private module, no extra items, no &mut receiver / &mut return / mutable field access, direct construction only in try_new / new / unsafe new_unchecked, every other function returning the type calls try_new / new, derived impls = declared derives, re-exports = declared visibility, all compared with the inventory model; (behavioural) bypass catalogue (tuple / struct-literal construction, field read / write, destructuring, *t = .., as_mut, AsMut / BorrowMut / DerefMut, &mut *t, iter_mut, for x in &mut t, get_mut / push / clear through Deref, new_unchecked without flag / without unsafe, new / From beside validation, Default without default, private helper functions, naming the private module, naming a private newtype or its error types from outside) x declaration shapes (int, String, Vec, float, validation-free; with / without new_unchecked) x position (sibling module / declaring module); each program is its own module, rustc's verdicts collected by iterated builds; legal twins must compile",
+                         "verdicts_by_attack": {"%s/%s" % k: v for k, v in sorted(by_attack.items())}, "exhaustive": True})
+    rep.samples.append({"attack": mods[0][3], "verdict": "rejected" if mods[0][0] in dropped else "compiles"})
+
+
 PROPS = {
     "C01": (["Props/C01.v"], c01, ["bound expressions evaluate without overflow (corpus keeps them in range)",
                                    "user closures are total functions (library of harness/rtgen.py)",
@@ -1367,6 +1544,10 @@ PROPS = {
                                    "the regex crate decides the validity of regex literals (oracle table regex_lib)"]),
     "C02": (["Props/C02.v"], c02, ["float literal values are Rust's decimal parse of the literal text (computed by the harness with exact rational rounding and checked here against the real behaviour)",
                                    "repeated blocks and malformed attributes are covered by the verdict corpus of C08"]),
+    "C15": (["Props/C15.v"], c15, ["name resolution is rustc's; the theorem is over the inventory abstraction (path roots of the emitted items)",
+                                   "the build probe enables ERROR_IN_CORE on this toolchain (rustc >= 1.81)"]),
+    "C05": (["Props/C05.v"], c05, ["rustc's privacy, borrow and unsafety rules are assumed, not modelled",
+                                   "inner types with interior mutability and user closures spliced inside the private module are outside the statement"]),
     "C06": (["Props/C06.v"], c06, ["the inner type's FromStr is an oracle (its real result is given to the model)",
                                    "`Any`/generic inner types with FromStr are not in the corpus yet"]),
 }
